@@ -7,7 +7,7 @@ Section Proofs.
 Variable absorb_n : nat.
 Variable react : nat -> list msg * bool.
 
-Lemma init_reachable : forall m, reachable absorb_n react m (sys0 m).
-Proof. intro m. apply reach_init. Qed.
+Lemma init_reachable : forall m e, reachable absorb_n react m e (sys0 m e).
+Proof. intros m e. apply reach_init. Qed.
 
 End Proofs.
